@@ -46,8 +46,8 @@ class SmoothedBoxPrior(Prior):
         super(SmoothedBoxPrior, self).__init__(batch_shape, event_shape, validate_args=validate_args)
         # now need to delete to be able to register buffer
         del self.a, self.b, self.sigma
-        self.register_buffer("a", _a)
-        self.register_buffer("b", _b)
+        self.register_buffer("a", _a.clone())
+        self.register_buffer("b", _b.clone())
         self.register_buffer("sigma", _sigma.clone())
         self.tails = NormalPrior(torch.zeros_like(_a), _sigma, validate_args=validate_args)
         self._transform = transform
